@@ -47,7 +47,7 @@ def post_nfa_accepts_word(N, word, result):
     R = adapt.nfa_ref(N)
     if not set(word) <= set(R[1]):
         return True
-    exp = fa.accepts_subset(R, word)
+    exp = fa.accepts_subset(R, word) if len(R[0]) <= 20 else fa.accepts_graph(R, word)
     if result != exp or not isinstance(result, bool):
         rec.violation('nfa_accepts_word:wrong_answer', 'nfa_accepts_word answers %r, an accepting run %s' % (result, 'exists' if exp else 'does not exist'),
                       word=word, expected=exp, observed=result)
@@ -124,6 +124,7 @@ def check_case(rec, case):
     words = list(fa.words_upto(R[1], n))
     lang = fa.language_upto(R, n)
     nontrivial = 0 < len(lang) < len(words)
+    words = words + [w for w in case.get('long_words', ())]
     rec.note_case(case, case['cls'], nontrivial)
     # oracle self-check on the live workload: reference A (graph) vs reference B (subset construction)
     selfcheck(rec, fa.language_upto_naive(R, min(n, 4)) == fa.language_upto(R, min(n, 4)), R)
@@ -199,8 +200,10 @@ def check_case(rec, case):
         if not o.ok:
             report_failure(rec, o, 'nfa_accepts_word', container=case['container'], word=w)
             break
-    W = fa.eps_closure_warshall(R)
-    for q in R[0]:
+    big = len(R[0]) > 60
+    qs = list(R[0]) if not big else [R[0][0], R[0][len(R[0]) // 2], R[0][-1]]        # huge automata: the closure of a few states only
+    W = fa.eps_closure_warshall(R) if not big else {q: fa.eps_closure_bfs(R, [q]) for q in qs}
+    for q in qs:
         selfcheck(rec, W[q] == fa.eps_closure_bfs(R, [q]))
         o = call(na.epsilon_closure, N, q)
         if not o.ok:
@@ -258,6 +261,10 @@ def gen_cases(rec, rng, tier):
             for back in (False, True):
                 yield {'kind': 'nfa', 'cls': 'eps_chain', 'ref': fag.eps_chain(k, back_edge=back, accept_end=(k % 3 != 0)), 'n': 3, 'eps': rng.choice(['', 'ε']),
                        'container': rng.choice(conts), 'sets': [['c00'], ['c%02d' % (k // 2)]]}
+    if rec.shard % 4 == 1:
+        for k in ((1100, 2500) if thorough else (1100,)):
+            yield {'kind': 'nfa', 'cls': 'eps_chain_beyond_recursion_limit', 'ref': fag.eps_chain(k, accept_end=True), 'n': 1, 'eps': '', 'container': 'defaultdict_set',
+                   'sets': [['c00'], ['c%02d' % (k // 2)]]}
     for R in fag.thompson_nfas(rng, 40 if thorough else 10):
         yield {'kind': 'nfa', 'cls': 'thompson_nfa', 'ref': R, 'n': 4, 'eps': rng.choice(['', '_']), 'container': rng.choice(conts), 'sets': _sets(rng, R)}
     # the same OBJECT queried, changed in place, and queried again (a stale per-object cache would answer for the old automaton)
@@ -273,6 +280,19 @@ def gen_cases(rec, rng, tier):
         cont = rng.choice(conts)
         yield {'kind': 'nfa', 'cls': 'random_nfa/' + cont, 'ref': R, 'n': {0: 3, 1: 8, 2: 6 if thorough else 5, 3: 5 if thorough else 4}[k],
                'eps': rng.choice(['', '_', 'ε', 'e']), 'container': cont, 'sets': _sets(rng, R)}
+    # beyond the small scopes: many states, alphabets of 4..8 symbols, sampled LONG words (boundaries such as 9/10 states,
+    # 16/17 or 32/33 letters are invisible to 'all words up to 6 on at most 8 states')
+    for _ in range(200 if thorough else 14):
+        n = rng.choice([9, 10, 11, 12, 16, 17, 26, 27, 33, 40])
+        k = rng.choice([1, 2, 4, 5, 8])
+        R = fag.random_dfa(rng, n, k, p_final=rng.choice([0.2, 0.5]))
+        yield {'kind': 'dfa', 'cls': 'large_dfa_long_words', 'ref': R, 'n': 2 if k <= 5 else 1, 'long_words': fag.long_words(rng, R[1])}
+        n = rng.choice([9, 10, 11, 12, 16, 17, 33, 54, 64, 65, 70])
+        k = rng.choice([1, 2, 4])
+        R = fag.random_nfa(rng, n, k, eps_density=rng.choice([0.2, 0.5]), density=rng.choice([1.0, 1.6]) / n)
+        cont = rng.choice(conts)
+        yield {'kind': 'nfa', 'cls': 'large_nfa_long_words/' + cont, 'ref': R, 'n': 2, 'long_words': fag.long_words(rng, R[1], 16), 'eps': rng.choice(['', '_']),
+               'container': cont, 'sets': [list(R[0])[:3], list(R[0])]}
     for _ in range(1000 if thorough else 80):
         n = rng.randint(1, 8)
         k = rng.randint(1, 3)
